@@ -1,7 +1,7 @@
 //! C20 — packet structs in `utils` serialise and parse consistently with the codec.
 
 use crate::common::*;
-use crate::engine::{bx, guard, hash_of, GenPart, Property, Stats, Tier};
+use crate::engine::{bx, guard, hash_of, EnumPart, GenPart, Property, Stats, Tier};
 use crate::oracle::refcodec::RefPacket;
 use dvb_gse_rust::crc::CrcCalculator;
 use dvb_gse_rust::gse_decap::{DecapStatus, Decapsulator, GseDecapMemory, SimpleGseMemory};
@@ -9,7 +9,7 @@ use dvb_gse_rust::gse_encap::{ContextFrag, EncapStatus};
 use dvb_gse_rust::utils::{GseCompletePacket, GseEndFragPacket, GseFirstFragPacket, GseIntermediatePacket, Serialisable};
 use proptest::prelude::*;
 use serde::{Deserialize, Serialize};
-use serde_json::json;
+use serde_json::{json, Value};
 
 #[derive(Clone, Debug, PartialEq, Eq, Hash, Serialize, Deserialize)]
 pub enum Desc {
@@ -279,12 +279,50 @@ fn check(c: &Case, st: &mut Stats) -> Result<(), String> {
     Ok(())
 }
 
+// ---- enumerated: every payload length for every packet kind and label kind ---------------------------------
+
+const PAY: u64 = 4001; // payload lengths 0..=4000
+
+fn sweep_case(i: u64) -> Case {
+    let (len, rest) = ((i % PAY) as u32, i / PAY);
+    let (labkind, kind) = (rest % 4, rest / 4);
+    let lab = match labkind {
+        0 => Lab::Six(ALPHA6[0]),
+        1 => Lab::Three(ALPHA3[1]), // 00:00:00, legal for a 3-byte label
+        2 => Lab::Broadcast,
+        _ => Lab::ReUse,
+    };
+    let payload = Pdu { len, seed: 3 + len };
+    let ptype = 0x0600 + ((len as u64 * 7919) % (0x10000 - 0x0600)) as u16;
+    let frag_id = (len % 256) as u8;
+    let d = match kind {
+        0 => Desc::Complete { lab, ptype, payload },
+        1 => Desc::First { lab, frag_id, ptype, payload, extra: 4 + (len % 977) as u16 },
+        // S=0 packets carry no label: the label dimension varies position / slack instead
+        2 => Desc::Inter { frag_id, payload: Pdu { len: len.max(1), seed: 3 + len }, pos: 1 + labkind as u16 * 700, extra: 1 + (len % 13) as u16 },
+        _ => Desc::End { frag_id, payload, pos: 1 + labkind as u16 * 700, crc: 0x9E37_79B9u32.wrapping_mul(len + 1) },
+    };
+    Case { d, slack: (len % 3) as u8 * (labkind as u8 + 1) }
+}
+
+fn check_sweep(i: u64, st: &mut Stats) -> Result<(), String> {
+    check(&sweep_case(i), st)
+}
+
 pub fn property() -> Property {
     Property {
         id: "C20",
         rule: "well-formed descriptions of the four packet kinds (label kinds 6-byte non-zero / 3-byte / broadcast / re-use, frag id, protocol type >= 0x0600, total length, any 32-bit CRC, payload 0..=4000, GSE length computed from the fields). oracle: generate writes exactly gse_len+2 bytes; parse(generate(d)) == d (also with trailing bytes); generate(d) equals the standard layout built by RefCodec and the bytes the encapsulator emits for the same fields (encap with re-use disabled / encap_frag from ContextFrag::new); the decapsulator accepts generate(d) with the same field values (end packets: accepted iff a constant CRC calculator returns exactly the trailer value; intermediates: delivered bytes are the concatenation). non-trivial = payload >= 1 byte",
         assumptions: &["utils::*::parse on malformed input is outside the property"],
-        parts: vec![Box::new(GenPart {
+        parts: vec![Box::new(EnumPart {
+            name: "every-payload-length-x-kind-x-label",
+            rule: "every payload length 0..=4000 x {complete, first, intermediate, end} x {6-byte, 3-byte 00:00:00, broadcast, re-use} (S=0 kinds: four positions instead of labels); one content, protocol type, frag id, CRC per length; exhaustive; same oracle",
+            size: |_| PAY * 4 * 4,
+            exhaustive: |_| true,
+            check: check_sweep,
+            describe: |_t, i| serde_json::to_value(sweep_case(i)).unwrap_or(Value::Null),
+            required_classes: &["complete", "first", "first-compared-with-encap", "intermediate", "end"],
+        }), Box::new(GenPart {
             name: "descriptions",
             rule: "see property rule",
             cases: (1_800_000, 30_000_000),
